@@ -115,3 +115,13 @@ func VerifDistanceToHyperplane(method int, v []float64, length float64, normal [
 }
 
 func VerifVectorLength(v []float64) float64 { return vectorLength(v) }
+
+func VerifValidCollectionName(name string) bool { return validCollectionName(name) }
+
+// VerifCollectionFileName is collectionNameToFileName for a given data folder.
+func VerifCollectionFileName(dataFolder, name string) string {
+	saved := globalConfig.DataFolder
+	globalConfig.DataFolder = dataFolder
+	defer func() { globalConfig.DataFolder = saved }()
+	return (&Server{}).collectionNameToFileName(name)
+}
